@@ -7,10 +7,19 @@ def main():
     t0 = time.time()
     root = build.ensure(verbose=True)
     env = build.env_for(root)
-    code = ("import ImageD11, ImageD11.cImageD11, ImageD11.sinograms.properties, ImageD11.sinograms.tensor_map, "
-            "ImageD11.sinograms.point_by_point; print('warm', ImageD11.__file__)")
+    code = ("import ImageD11, ImageD11.cImageD11, "
+            "ImageD11.sparseframe; print('imported', ImageD11.__file__)")
     r = subprocess.run([build.PY, "-c", code], env=env, stdout=subprocess.PIPE, stderr=subprocess.STDOUT, text=True)
     print(r.stdout[-2000:])
+    # pre-compile the numba functions each check uses (serially: numba's disk cache is not safe for concurrent writers)
+    import glob
+    wenv = dict(env, VT_CHILD="1")
+    for f in sorted(glob.glob(os.path.join(os.path.dirname(os.path.abspath(__file__)), "props", "c*.py"))):
+        if "def warm(" in open(f).read():
+            mod = "vt.props." + os.path.basename(f)[:-3]
+            rr = subprocess.run([build.PY, "-c", "from vt import runner; runner._warm(%r)" % mod], env=wenv,
+                                stdout=subprocess.PIPE, stderr=subprocess.STDOUT, text=True)
+            print("warm", mod, rr.returncode, rr.stdout[-300:])
     print("setup done in %.1fs -> %s" % (time.time() - t0, root))
     return 0 if r.returncode == 0 else 1
 
